@@ -160,3 +160,46 @@ func VerifC06_QueueIdRoundTrip() {
 	}
 	sym.Reach("done")
 }
+
+var verifOpened []string
+
+func verifStubOpenRecording(name string) (*os.File, error) {
+	verifOpened = append(verifOpened, name)
+	return fsmodel.OsOpen(name)
+}
+
+// VerifC17_QueueRootIsTheSameForScanAndUse: the configured `.rootPath` (with or
+// without an environment variable in it, symbolic choice of four spellings) is
+// resolved the same way by the scan for queued buffer ids at (re)start
+// (Config.ListBufferIDs) and by the bufferer that writes the queue
+// (Config.NewBufferer): the directory scanned is the parent of the queue
+// directory that is used - otherwise a new orchestrator started by a reload
+// finds nothing to take over. (os.Getenv is the engine's: every variable is empty.)
+//
+//verif:native off
+//verif:stub os.MkdirAll verifStubMkdirAll
+//verif:stub os.WriteFile verifStubWriteFile
+//verif:stub os.Open verifStubOpenRecording
+//verif:stub github.com/relex/slog-agent/util.MD5ToHexdigest verifStubMD5
+//verif:reach done
+func VerifC17_QueueRootIsTheSameForScanAndUse() {
+	verifMkdirs, verifFiles, verifOpened = nil, map[string]string{}, nil
+	fsmodel.Reset()
+	root := []string{"/var/q", "${ZZ_ROOT}/q", "$ZZ_ROOT/q", "/var/${ZZ_NAME}q"}[sym.Choice("rootPathSpelling", 4)]
+	cfg := &Config{RootPath: root, MaxBufSize: 1 << 20}
+	sym.Assert(cfg.VerifyConfig() == nil, "configuration accepted")
+	m := fakes.NewMetrics()
+	cfg.ListBufferIDs(logger.Root(), func(string) bool { return true }, m)
+	sym.Assert(len(verifOpened) >= 1, "the scan opens the root directory")
+	scanned := verifOpened[0]
+	n := sym.Choice("idLen", 2) + 1
+	id := sym.String("id", n, n)
+	cfg.NewBufferer(logger.Root(), id, verifMatchFF, fakes.NewMetrics(), false)
+	sym.Assert(len(verifMkdirs) == 1, "the bufferer creates its queue directory")
+	used := verifMkdirs[0]
+	sym.Assert(len(used) > len(scanned)+1 && used[:len(scanned)] == scanned && used[len(scanned)] == '/', "the directory scanned for queued buffers at start is the parent of the queue directories in use")
+	for i := len(scanned) + 1; i < len(used); i++ {
+		sym.Assert(used[i] != '/', "the queue directory is a direct child of the scanned root")
+	}
+	sym.Reach("done")
+}
